@@ -18,7 +18,10 @@ from beartype._check.cls.hint.hintsane import (
     HINT_SANE_IGNORABLE,
 )
 from beartype._check.cls.hint.tree.hinttreeabc import HintTreeABC
-from beartype._data.hint.sign.datahintsigns import HintSignUnion
+from beartype._data.hint.sign.datahintsigns import (
+    HintSignOptional,
+    HintSignUnion,
+)
 from beartype._data.typing.datatyping import TypeOrTupleTypes
 from beartype._util.cls.pep.clspep3119 import (
     die_unless_object_issubclassable,
@@ -114,7 +117,10 @@ def get_hint_pep484585_subclass_hint_child_sanified(
     # If this child hint is a union of superclasses, reduce this union to a
     # tuple of superclasses. Only the latter is safely passable as the second
     # parameter to the issubclass() builtin under all supported Python versions.
-    if hint_child_sign is HintSignUnion:
+    if (
+        hint_child_sign is HintSignUnion or
+        hint_child_sign is HintSignOptional
+    ):
         hint_child = get_hint_pep_args(hint_child)
     # Else, this child hint is *NOT* a union.
 
